@@ -288,3 +288,117 @@ def knn_call_sequences(rep, rng, tier, key="knn_rule:sequence"):
                               dict(model="knn", max_k=kmax, X=X.tolist(), Y=Y.tolist(), X_second_training=X2.tolist(), Y_second_training=Y2.tolist(), queries=Q.tolist()), key=key)
     rep.corr["knn_call_sequences"] = dict(cases=runs)
     return nviol
+
+
+def bigint_matrix_predict(rep, rng, tier, key="predict:bigint"):
+    """Pre-computed matrices of INTEGER dtype whose entries exceed 2^53 (exact squared distances between lattice points ~1e8
+    apart): costs and arc weights stay exact in int64, so the C03 rule is judged with Python integers - two candidates one
+    unit apart at 1e16 are different values."""
+    from opfython.models.supervised import SupervisedOPF
+    from opfython.models.semi_supervised import SemiSupervisedOPF
+    nviol, runs = 0, 0
+    for rd in range(40 if tier == "quick" else 1200):
+        n, m = rng.randint(4, 9), rng.randint(2, 5)
+        N = n + m
+        step = 10 ** 8
+        for _ in range(50):
+            # abscissae on a coarse lattice (multiples of 1e8), ordinates small: squared distances k^2 * 1e16 + (0, 1, 4, 9 ...),
+            # i.e. distinct integers that collapse to the same binary64 number
+            P = [[rng.randint(-2, 2) * step, rng.randint(-3, 3)] for _ in range(N)]
+            D = [[(P[a][0] - P[b][0]) ** 2 + (P[a][1] - P[b][1]) ** 2 for b in range(N)] for a in range(N)]
+            if all(D[a][b] > 0 for a in range(N) for b in range(N) if a != b) and max(max(r) for r in D) < 2 ** 62:
+                break
+        else:
+            continue
+        Y = [j % 2 for j in range(n)]; rng.shuffle(Y)
+        if len(set(Y)) < 2:
+            continue
+        M = np.array(D, dtype=np.int64)
+        semi = rd % 3 == 2
+        try:
+            o = (SemiSupervisedOPF if semi else SupervisedOPF)()
+            o.pre_computed_distance = True
+            o.pre_distances = M
+            Z = np.zeros((N, 1))
+            if semi:
+                o.fit(Z[:n - 1], np.array(Y[:n - 1]), Z[n - 1:n], np.arange(n - 1), np.arange(n - 1, n))
+            else:
+                o.fit(Z[:n], np.array(Y), np.arange(n))
+            preds = [int(v) for v in o.predict(Z[:m], np.arange(n, N))]
+            nodes = o.subgraph.nodes
+            cost = [int(nd.cost) for nd in nodes]
+            lab = [int(nd.predicted_label) for nd in nodes]
+            idx = [int(nd.idx) for nd in nodes]
+        except Exception as ex:   # noqa
+            continue
+        runs += 1
+        rep.count_case(("bigint", tuple(map(tuple, D))), True)
+        for j in range(m):
+            q = n + j
+            vals = [max(cost[t], D[idx[t]][q]) for t in range(len(nodes))]
+            best = min(vals)
+            ok = {lab[t] for t in range(len(nodes)) if vals[t] == best}
+            if preds[j] not in ok:
+                nviol += 1
+                if nviol <= 2:
+                    rep.violation("%s on an int64 distance matrix with entries beyond 2^53: query %d is labelled %d, the minimum of max(cost, distance) = %d is attained only "
+                                  "by samples labelled %r (values %r)" % (type(o).__name__, j, preds[j], best, sorted(ok), vals),
+                                  dict(model="semi" if semi else "sup", points=P, labels=Y, n_train=n, matrix_dtype="int64", matrix=D), key=key)
+                break
+    rep.corr["int64_matrices_beyond_2^53"] = dict(cases=runs)
+    return nviol
+
+
+def overflow_queries(rep, rng, tier, key="predict_position:overflow"):
+    """Queries so far away that every distance overflows to inf (finite features of magnitude 1e200), mixed into a batch of
+    ordinary queries: their answers - whatever they are - must not depend on their neighbours in the batch, their position, or
+    earlier calls; the ordinary rows must not be affected either. All four model kinds."""
+    from opfython.models.supervised import SupervisedOPF
+    from opfython.models.semi_supervised import SemiSupervisedOPF
+    from opfython.models.knn_supervised import KNNSupervisedOPF
+    from opfython.models.unsupervised import UnsupervisedOPF
+    import warnings
+    nviol, runs = 0, 0
+
+    def ans(p):
+        return list(zip(*[list(map(int, q)) for q in p])) if isinstance(p, tuple) else list(map(int, p))
+    for rd in range(6 if tier == "quick" else 150):
+        dim = rng.randint(1, 3)
+        cen = [[rng.uniform(-5, 5) for _ in range(dim)] for _ in range(2)]
+        n = rng.randint(8, 14)
+        Y = np.array([1 + (j % 2) for j in range(n)])
+        X = np.array([[cen[Y[j] - 1][t] + rng.gauss(0, 1.0) for t in range(dim)] for j in range(n)])
+        Xv = np.array([[cen[j % 2][t] + rng.gauss(0, 1.0) for t in range(dim)] for j in range(6)]); Yv = np.array([1 + (j % 2) for j in range(6)])
+        near = [[cen[j % 2][t] + rng.gauss(0, 1.5) for t in range(dim)] for j in range(4)]
+        far = [[rng.choice([-1, 1]) * 10.0 ** rng.choice([160, 200, 300]) for _ in range(dim)] for _ in range(2)]
+        rows = [near[0], far[0], near[1], near[2], far[1], near[3], far[0]]
+        Q = np.array(rows)
+        metric = rng.choice(["log_squared_euclidean", "euclidean", "squared_euclidean"])
+        for kind in ("sup", "semi", "knn", "unsup"):
+            try:
+                with warnings.catch_warnings():
+                    warnings.simplefilter("ignore")
+                    if kind == "sup":
+                        o = SupervisedOPF(distance=metric); o.fit(X.copy(), Y.copy())
+                    elif kind == "semi":
+                        o = SemiSupervisedOPF(distance=metric); o.fit(X.copy(), Y.copy(), Xv.copy())
+                    elif kind == "knn":
+                        o = KNNSupervisedOPF(max_k=3, distance=metric); o.fit(X.copy(), Y.copy(), Xv.copy(), Yv.copy())
+                    else:
+                        o = UnsupervisedOPF(min_k=1, max_k=3, distance=metric); o.fit(X.copy(), Y.copy()); o.propagate_labels()
+                    whole = ans(o.predict(Q.copy()))
+                    singles = [ans(o.predict(Q[j:j + 1].copy()))[0] for j in range(len(rows))]
+                    rev = ans(o.predict(Q[::-1].copy()))[::-1]
+            except Exception:   # noqa
+                continue
+            runs += 1
+            rep.count_case(("overflow", kind, metric, X.tobytes(), Q.tobytes()), True)
+            if not (whole == singles == rev):
+                j = [t for t in range(len(rows)) if not (whole[t] == singles[t] == rev[t])][0]
+                nviol += 1
+                if nviol <= 2:
+                    rep.violation("%s predict (%s): row %d of the batch %s gets %r in the batch, %r alone, %r in the reversed batch" %
+                                  (kind, metric, j, "(all distances overflow to inf)" if rows[j] in far else "(an ordinary query)", whole[j], singles[j], rev[j]),
+                                  dict(model=kind, metric=metric, X=X.tolist(), Y=Y.tolist(), batch=Q.tolist(), row=j), key=key)
+    rep.corr["queries_with_overflowing_distances"] = dict(cases=runs)
+    return nviol
